@@ -154,7 +154,12 @@ func streamBookkeepingRule(c *Ctx) {
 	c.Pin("deliverLocked event writes", nWE, 1)
 	for i, r := range dl.Returns() {
 		if len(r.Results) == 2 {
-			c.Check(dl.ObjOf(r.Results[0]) == doneRes, "deliverLocked:returns-done#"+itoa(i), dl, r, "every return reports the computed completion value")
+			okR := dl.ObjOf(r.Results[0]) == doneRes
+			if b, isC := dl.ConstBool(r.Results[0]); isC && !okR {
+				// `return true, …` where done is known to be true (and likewise false) says the same
+				okR = hasAtom(dg.GuardsAt(dg.VertexOf(r)), func(a Atom) bool { return a.Val == b && dl.ObjOf(a.E) == doneRes })
+			}
+			c.Check(okR, "deliverLocked:returns-done#"+itoa(i), dl, r, "every return reports the computed completion value")
 		}
 	}
 	// the id whose arrival completes a request is the response's own id
